@@ -8,7 +8,7 @@ from typing import Any, Dict, List, Optional, Tuple
 
 from .. import AnalysisError
 from ..absint import EvalRaise, EvalReturn, Evaluator, Opaque, Unknown
-from ..framemodel import Frame, Ser, Unsupported, _Loc, _At, _Columns
+from ..framemodel import Frame, LibTypeError, Ser, Unsupported, _Loc, _At, _Columns
 from ..program import FuncInfo, norm, walk_local
 
 EXPLANATION = (
@@ -294,6 +294,8 @@ class Interp:
                     raise EvalRaise("KeyError", c)
                 except ValueError:
                     raise EvalRaise("ValueError", c)
+                except LibTypeError:
+                    raise EvalRaise("TypeError", c)
                 except TypeError as exc:
                     raise Unknown(f"{f.attr}: {exc}")
                 if isinstance(out, (type({}.items()), type({}.keys()), type({}.values()))):
